@@ -13,7 +13,7 @@ namespace GluonModel.GcHeap
     global heap, string arrays only with the repaired cloner. -/
 def ObjOK (fixed : Bool) (o : Obj) : Prop :=
   (o.kind ≠ .thread → o.home = o.owner) ∧ (o.kind = .code → o.owner = []) ∧
-    (o.kind = .shallow → fixed = true)
+    (o.kind = .shallow → fixed = true) ∧ (o.kind = .thread → o.owner <+: o.home)
 
 /-- The invariant of the machine. -/
 structure Good (fixed : Bool) (s : State) : Prop where
@@ -104,8 +104,9 @@ theorem good_addRoot {fixed : Bool} {s : State} {t : HeapId} {r : Nat} (g : Good
     · simp only [if_neg hc] at this; exact ⟨_, this⟩
   · intro i oi hi
     obtain ⟨o0, h0, ho, hh, hk, _⟩ := addRoot_obj hi
-    obtain ⟨a, b, c⟩ := g.objs i o0 h0
-    exact ⟨by rw [hk, hh, ho]; exact a, by rw [hk, ho]; exact b, by rw [hk]; exact c⟩
+    obtain ⟨a, b, c, d⟩ := g.objs i o0 h0
+    exact ⟨by rw [hk, hh, ho]; exact a, by rw [hk, ho]; exact b, by rw [hk]; exact c,
+      by rw [hk, hh, ho]; exact d⟩
   · intro p hp
     have hp' : p ∈ s.groots := hp
     obtain ⟨hlt, hown⟩ := g.groots p hp'
@@ -167,8 +168,9 @@ theorem good_mapRoots {fixed : Bool} {s : State} {t : HeapId} {f : List Nat → 
     exact mapRoots_live hoe
   · intro i oi hi
     obtain ⟨o0, h0, ho, hh, hk, _⟩ := mapRoots_obj hi
-    obtain ⟨a, b, c⟩ := g.objs i o0 h0
-    exact ⟨by rw [hk, hh, ho]; exact a, by rw [hk, ho]; exact b, by rw [hk]; exact c⟩
+    obtain ⟨a, b, c, d⟩ := g.objs i o0 h0
+    exact ⟨by rw [hk, hh, ho]; exact a, by rw [hk, ho]; exact b, by rw [hk]; exact c,
+      by rw [hk, hh, ho]; exact d⟩
   · intro p hp
     have hp' : p ∈ s.groots := hp
     obtain ⟨hlt, hown⟩ := g.groots p hp'
@@ -231,8 +233,9 @@ theorem good_setEdges {fixed : Bool} {s : State} {n : Nat} {on : Obj} {es : List
       exact setEdges_live hoe
   · intro i oi hi
     obtain ⟨o0, h0, ho, hh, hk, _⟩ := setEdges_obj hi
-    obtain ⟨a, b, c⟩ := g.objs i o0 h0
-    exact ⟨by rw [hk, hh, ho]; exact a, by rw [hk, ho]; exact b, by rw [hk]; exact c⟩
+    obtain ⟨a, b, c, d⟩ := g.objs i o0 h0
+    exact ⟨by rw [hk, hh, ho]; exact a, by rw [hk, ho]; exact b, by rw [hk]; exact c,
+      by rw [hk, hh, ho]; exact d⟩
   · intro p hp
     have hp' : p ∈ s.groots := hp
     obtain ⟨hlt, hown⟩ := g.groots p hp'
@@ -431,7 +434,8 @@ theorem good_deepClone {fixed : Bool} {s s' : State} {dst : HeapId} {rgen : Opti
     · rw [hext.2 i hio] at hi; exact g.objs i oi hi
     · obtain ⟨o, ho, hown, hhome, hkind, _⟩ := hfin i (by omega) (hwf'.lt hi)
       rw [ho] at hi; cases hi
-      refine ⟨fun _ => ?_, fun hk => absurd hk hkind.ne_code, fun hk => ?_⟩
+      refine ⟨fun _ => ?_, fun hk => absurd hk hkind.ne_code, fun hk => ?_,
+        fun hk => absurd hk hkind.ne_thread⟩
       · rcases hhome with h1 | ⟨h1, _⟩ <;> rw [h1, hown]
       · rcases hkind with h1 | h1 | ⟨_, h1⟩
         · rw [h1] at hk; cases hk
@@ -461,7 +465,7 @@ theorem cloneCtx_of_shortcut {fixed : Bool} {s : State} {src dst : HeapId} {v0 :
   · intro v o hv ho hs
     exact shortcut_sound' g.inv g.homed h0 hcs hv ho hs
   · intro v o _ ho _ hk
-    exact (g.objs v o ho).2.2 hk
+    exact (g.objs v o ho).2.2.1 hk
   · intro v o _ ho hk
     rw [(g.objs v o ho).2.1 hk]; exact List.nil_prefix
 
@@ -474,13 +478,16 @@ theorem good_alloc {fixed : Bool} {s : State} (g : Good fixed s) (t : HeapId) (k
   apply good_push g
   · intro e he
     exact holds_spec (List.all_eq_true.mp hf e he)
-  · refine ⟨fun _ => rfl, fun hc => ?_, fun hc => ?_⟩
+  · refine ⟨fun _ => rfl, fun hc => ?_, fun hc => ?_, fun hc => ?_⟩
     · have hc' : kind = .code := hc
       subst hc'
       simpa [kindAllowed] using hk
     · have hc' : kind = .shallow := hc
       subst hc'
       simpa [kindAllowed] using hk
+    · have hc' : kind = .thread := hc
+      subst hc'
+      simp [kindAllowed] at hk
 
 theorem good_spawn {fixed : Bool} {s : State} (g : Good fixed s) (parent : HeapId) (i : Nat) :
     Good fixed (spawn s parent i).1 := by
@@ -488,7 +495,8 @@ theorem good_spawn {fixed : Bool} {s : State} (g : Good fixed s) (parent : HeapI
   apply good_addRoot
   · apply good_push g
     · intro e he; simp at he
-    · exact ⟨fun h => absurd rfl h, fun h => by simp at h, fun h => by simp at h⟩
+    · exact ⟨fun h => absurd rfl h, fun h => by simp at h, fun h => by simp at h,
+        fun _ => List.prefix_append _ _⟩
   · exact ⟨⟨parent, parent ++ [i], .thread, []⟩, by simp [State.push], List.prefix_refl _⟩
 
 theorem good_store {fixed : Bool} {s : State} (g : Good fixed s) (t : HeapId) (cell v : Nat)
@@ -529,7 +537,7 @@ theorem good_transfer {fixed : Bool} {s : State} (g : Good fixed s) (sameVm : Bo
     simp only
     have ctx := cloneCtx_of_transfer (sameVm := sameVm) (fixed := fixed) (src := src) (dst := dst)
       g.wf g.nd g.inv g.homed ⟨ov, hov⟩ (fun o ho => by rw [hov] at ho; cases ho; exact hvpre)
-      (fun p o _ ho hk => (g.objs p o ho).2.2 hk) (fun p o _ ho hk => (g.objs p o ho).2.1 hk)
+      (fun p o _ ho hk => (g.objs p o ho).2.2.1 hk) (fun p o _ ho hk => (g.objs p o ho).2.1 hk)
     obtain ⟨g1, _, hok⟩ := good_deepClone g ctx CopyReach.root hd
     exact good_addRoot g1 hok
 
@@ -599,7 +607,8 @@ theorem init_good (fixed : Bool) : Good fixed init := by
     simp at he
   · intro i o h
     obtain ⟨_, rfl⟩ := hobj i o h
-    exact ⟨fun h => absurd rfl h, fun h => by simp at h, fun h => by simp at h⟩
+    exact ⟨fun h => absurd rfl h, fun h => by simp at h, fun h => by simp at h,
+      fun _ => List.nil_prefix⟩
   · intro p hp
     simp [init, State.ofList] at hp
 
@@ -613,5 +622,99 @@ theorem run_good {fixed : Bool} : ∀ (ops : List Op) (s : State), Good fixed s 
     show Good fixed (run fixed (step fixed s op) ops)
     exact ih _ (step_good g op (h op List.mem_cons_self))
       (fun o ho => h o (List.mem_cons_of_mem _ ho))
+
+/-! ### mark bits -/
+
+/-- Everything the marker reaches (without entering an older generation) lies in a heap the
+    collection sweeps. -/
+theorem reachNS_inside {fixed : Bool} {s : State} {t : HeapId} (g : Good fixed s) {p : Nat}
+    (h : ReachNS s t p) : ∃ op, s.obj p = some op ∧ t <+: op.owner := by
+  have hlen : ∀ p, skip s t p = false → ∃ op, s.obj p = some op ∧ t.length ≤ op.owner.length := by
+    intro p hs
+    unfold skip at hs
+    cases ho : s.obj p with
+    | none => simp [ho] at hs
+    | some op => simp only [ho, decide_eq_false_iff_not, Nat.not_lt] at hs; exact ⟨op, rfl, hs⟩
+  induction h with
+  | @root p hr hs =>
+    obtain ⟨op, hop, hl⟩ := hlen p hs
+    obtain ⟨i, o, _, ho, _, hpre, he⟩ := mem_rootsOf.mp hr
+    have h1 : op.owner <+: o.home := g.inv i o p op ho he hop
+    exact ⟨op, hop, List.prefix_of_prefix_length_le hpre h1 hl⟩
+  | @step q p oq _ hq he hs ih =>
+    obtain ⟨op, hop, hl⟩ := hlen p hs
+    obtain ⟨oq', hq', hin⟩ := ih
+    rw [hq] at hq'; cases hq'
+    have h1 : op.owner <+: oq.home := g.inv q oq p op hq he hop
+    have h2 : t <+: oq.home := by
+      by_cases hk : oq.kind = .thread
+      · exact hin.trans ((g.objs q oq hq).2.2.2 hk)
+      · rw [g.homed q oq hq hk]; exact hin
+    exact ⟨op, hop, List.prefix_of_prefix_length_le h2 h1 hl⟩
+
+/-- A collection never leaves a mark bit in a heap it swept. -/
+theorem collectM_resets_swept {s s' : State} {t : HeapId} {marked marked' : List Nat}
+    (h : collectM s t marked = some (s', marked')) : ∀ i ∈ marked', inSwept s t i = false := by
+  unfold collectM at h
+  cases hm : markM s t marked with
+  | none => simp [hm] at h
+  | some m =>
+    simp only [hm, Option.some.injEq, Prod.mk.injEq] at h
+    intro i hi
+    rw [← h.2] at hi
+    have := (List.mem_filter.mp hi).2
+    simpa using this
+
+/-- In a state of the machine with all mark bits clear, a collection behaves exactly like the
+    mark-bit-free `collect` and leaves ALL mark bits clear again (nothing outside the swept heaps
+    is ever marked, because of the heap invariant). -/
+theorem collectM_clean {fixed : Bool} {s : State} (g : Good fixed s) (t : HeapId) :
+    ∃ s', collect s t = some s' ∧ collectM s t [] = some (s', []) := by
+  obtain ⟨m, hm⟩ := mark_total' s t g.wf
+  refine ⟨{ s with obj := sweepObj s t m }, by simp [collect, hm], ?_⟩
+  have hm' : markM s t [] = some m := hm
+  simp only [collectM, hm', Option.some.injEq, Prod.mk.injEq, true_and]
+  apply List.filter_eq_nil_iff.mpr
+  intro i hi
+  obtain ⟨op, hop, hin⟩ := reachNS_inside g ((mark_spec hm i).mp hi)
+  simp [inSwept, hop, List.isPrefixOf_iff_prefix.mpr hin]
+
+/-- The machine with the mark bits as part of the state. -/
+def stepM (fixed : Bool) (x : State × List Nat) : Op → State × List Nat
+  | .collect t => if t ≠ [] then (collectM x.1 t x.2).getD x else x
+  | op => (step fixed x.1 op, x.2)
+
+def runM (fixed : Bool) (x : State × List Nat) (ops : List Op) : State × List Nat :=
+  ops.foldl (stepM fixed) x
+
+/-- **Mark bits are clear in every reachable state** (so every collection of a history starts
+    from clean bits, which `collect` and `collect_safe` silently assume). -/
+theorem runM_clean {fixed : Bool} : ∀ (ops : List Op) (s : State), Good fixed s →
+    (∀ op ∈ ops, op.isPromote = false) → runM fixed (s, []) ops = (run fixed s ops, []) := by
+  intro ops
+  induction ops with
+  | nil => intro s _ _; rfl
+  | cons op ops ih =>
+    intro s g h
+    have hop := h op List.mem_cons_self
+    have hstep : stepM fixed (s, []) op = (step fixed s op, []) := by
+      cases op with
+      | collect t =>
+        simp only [stepM, step]
+        by_cases ht : t ≠ []
+        · obtain ⟨s', h1, h2⟩ := collectM_clean g t
+          simp [ht, h1, h2]
+        · simp [ht]
+      | promote thr v => simp [Op.isPromote] at hop
+      | alloc _ _ _ => rfl
+      | root _ _ => rfl
+      | unroot _ _ => rfl
+      | spawn _ _ => rfl
+      | dropThread _ => rfl
+      | store _ _ _ => rfl
+      | transfer _ _ _ _ => rfl
+    show runM fixed (stepM fixed (s, []) op) ops = (run fixed (step fixed s op) ops, [])
+    rw [hstep]
+    exact ih _ (step_good g op hop) (fun o ho => h o (List.mem_cons_of_mem _ ho))
 
 end GluonModel.GcHeap
